@@ -475,6 +475,7 @@ fn fuzz(corpus_path: &str, seed: u64, iters: u64, out_path: &str) {
         Some((TokenStream::from_str(a).ok()?, TokenStream::from_str(i).ok()?))
     }).collect();
     let mut out = std::io::BufWriter::new(std::fs::File::create(out_path).unwrap());
+    let trace = std::env::var("XCHECK_FUZZ_TRACE").ok();
     let mut rng = Rng(seed.wrapping_mul(0x2545F4914F6CDD1D) ^ 0x1234567);
     let (mut tried, mut valid, mut ok, mut errs, mut bad) = (0u64, 0u64, 0u64, 0u64, 0u64);
     let mut kinds: BTreeMap<String, u64> = BTreeMap::new();
@@ -514,6 +515,10 @@ fn fuzz(corpus_path: &str, seed: u64, iters: u64, out_path: &str) {
         // a mutated stream that does not survive printing and re-lexing (e.g. a split lifetime token) is not source text
         if TokenStream::from_str(&c.item).is_err() || TokenStream::from_str(&c.args).is_err() { valid -= 1; continue; }
         if derive_form && syn::parse2::<syn::DeriveInput>(TokenStream::from_str(&c.item).unwrap_or_default()).is_err() { valid -= 1; continue; }
+        // trace mode (after a run died: a stack overflow or an abort cannot be caught): leave the input on disk first
+        if let Some(tp) = &trace {
+            let _ = std::fs::write(tp, format!("{{\"entry\":{},\"args\":{},\"item\":{}}}\n", esc(&c.entry), esc(&c.args), esc(&c.item)));
+        }
         let r1 = expand_real(&c);
         let r2 = expand_real(&c);
         let mut problem: Option<(String, String)> = None;
